@@ -36,10 +36,10 @@ func NewRouter(s *specification.Spec, ps []*PathItem, os []*Operation, opt Gener
 	}
 
 	for _, sec := range s.Components.SecuritySchemes.List {
-		if sec.V.Value().Type == specification.SecuritySchemeTypeApiKey && sec.V.Value().In == "header" {
+		if sec.V.Value().Type == specification.SecuritySchemeTypeApiKey && sec.V.Value().In == "header" && !containsString(r.APIKeys, sec.V.Value().Name) {
 			r.APIKeys = append(r.APIKeys, sec.V.Value().Name)
 		}
-		if sec.V.Value().Type == specification.SecuritySchemeTypeApiKey && sec.V.Value().In == "query" {
+		if sec.V.Value().Type == specification.SecuritySchemeTypeApiKey && sec.V.Value().In == "query" && !containsString(r.APIKeysQuery, sec.V.Value().Name) {
 			r.APIKeysQuery = append(r.APIKeysQuery, sec.V.Value().Name)
 		}
 	}
@@ -251,4 +251,15 @@ func (r *Route) add(pi *RouterPathItem, dirs []string) {
 type RoutePathItem struct {
 	*RouterPathItem
 	Prefix string
+}
+
+// containsString: two security schemes may read the same header or query name; the authenticator
+// is keyed by that name and must be emitted once.
+func containsString(l []string, s string) bool {
+	for _, x := range l {
+		if x == s {
+			return true
+		}
+	}
+	return false
 }
